@@ -211,7 +211,6 @@ Definition indexed_match (regs : list str) (o : opcfg) (r : str) (idx : list idx
   | Some (TLabel x :: TOp s :: rest) =>
       if negb (str_eqb_ci x r) then PNo else
       if negb (existsb (fun i => idx_pattern_matches i rest) idx) then PNo else
-      if negb (str_eqb x r) then PNo else                         (* matched_register != self.register (case-sensitive) *)
       match s with
       | OAdd =>
           match first_idx regs (sort_idx idx) rest with
